@@ -51,8 +51,17 @@ def gen_eqn_session(S, idx):
         ops.append({'op': 'knob', 'name': 'TraceStep', 'value': kn.randint(1, T)})
     if kn.random() < 0.3:
         ops.append({'op': 'knob', 'name': 'ParameterErrorTolerance', 'value': kn.choice([1e-6, 1e-10])})
+    steady = kn.random() < 0.12
+    if steady:
+        # a block with period-to-period dynamics whose steady state differs from its initial conditions
+        g = round(rng.uniform(5, 40), 1)
+        block = {'eqs': [['y', '0.5*c + %s' % repr(g)], ['c', '0.3*y + 0.2*LAG_w'], ['w', '0.8*LAG_w + 0.1*y']],
+                 'lags': [['LAG_w', 'w', 'k']], 'ics': [['w', repr(round(rng.uniform(0, 50), 1))]], 'exo': [],
+                 'maxtime': T, 'err_tol': None}
+        ops.append({'op': 'knob', 'name': 'ParameterSolveInitialSteadyState', 'value': True})
+        ops.append({'op': 'knob', 'name': 'ParameterInitialSteadyStateMaxTime', 'value': kn.choice([20, 40])})
     ops.append({'op': 'parse', 'block': block})
-    mode = kn.choice(['mono', 'step', 'step'])
+    mode = kn.choice(['mono', 'step', 'step']) if not steady else 'mono'
     if mode == 'mono':
         ops.append({'op': 'solve'})
         ops.append({'op': 'observe'})
@@ -62,6 +71,8 @@ def gen_eqn_session(S, idx):
             ops.append({'op': 'step', 'k': k})
         ops.append({'op': 'observe'})
     r = kn.random()
+    if steady:
+        r = 0.0 if r < 0.8 else 1.0          # the steady-state option persists on the solver: re-solve only
     if r < 0.35:
         ops.append({'op': 'solve'})          # re-solve: must repeat the first solve exactly
         ops.append({'op': 'observe', 'expect_same_as_previous': True})
